@@ -1,21 +1,27 @@
 #!/bin/sh
 # Re-run every stored seeded change and every mutant against the quick tier of its check.
 # Prints one line per item; exit 1 if any property-breaking item is missed or a "silent" one is flagged.
+# usage: tools/regress.sh [seeds|mutants]   (default: both); every item is given 15 minutes at most
+what="${1:-both}"
 bad=0
 for d in /verif/seeded/*/; do
+    [ "$what" = mutants ] && break
     n=$(basename "$d")
     prop=$(python3 -c "import json,sys; print(json.load(open('$d/meta.json'))['property'])")
-    out=$(python3 /verif/tools/seed_eval.py "$n" "$prop" 2>&1 | grep -E "check $prop")
+    out=$(timeout 900 python3 /verif/tools/seed_eval.py "$n" "$prop" 2>&1 | grep -aE "check $prop")
+    git -C /repo checkout -- . 2>/dev/null
     echo "seed $n $out"
     case "$out" in *CAUGHT*) ;; *) bad=1 ;; esac
 done
 for p in /verif/mutants/*.patch; do
+    [ "$what" = seeds ] && break
     b=$(basename "$p" .patch)
     case "$b" in
         silent-*) prop=C01; want=MISSED ;;
         *) prop=$(echo "$b" | cut -c1-3 | tr a-z A-Z); want=CAUGHT ;;
     esac
-    out=$(/verif/tools/sensitivity.sh "$p" "$prop" quick 2>&1 | tail -1)
+    out=$(timeout 900 /verif/tools/sensitivity.sh "$p" "$prop" quick 2>&1 | tail -1)
+    git -C /repo checkout -- . 2>/dev/null
     echo "mutant $out"
     case "$out" in *$want*) ;; *) bad=1 ;; esac
 done
